@@ -4,8 +4,8 @@ The harness owns the encoder, so the list of parts it was given is the oracle; n
 """
 
 BOUNDARIES = [b"b", b"boundary", b"----WebKitFormBoundary7MA4YWxkTrZu0gW", b"a-b", b"-", b"--", b"x y", b"'()+_,./:=?", b"B" * 70, b"0"]
-NAMES = ["f", "name with space", "n;x", "k=v", "naïve", "中文", "a,b", "x'y", " lead", "trail ", "", "file[]", "a;b;c", ";;", "x;y=z;w", "%22pct%0D%0A", "100%", "a%41b"]
-FILENAMES = ["fn.txt", "", "a;b.txt", "файл.bin", "sp ace.tar.gz", "x=y", "semi;colon", "jan;feb;mar.csv", "a;b;c;d", "; filename=evil", "q%22.txt", "nl%0Ax%0D.bin"]
+NAMES = ["f", "name with space", "n;x", "k=v", "naïve", "中文", "a,b", "x'y", " lead", "trail ", "", "file[]", "a;b;c", ";;", "x;y=z;w", "%22pct%0D%0A", "100%", "a%41b", "v\x0bt", "l\u2028s", "n\x85l", "ff\x0c", "fs\x1cgs\x1d"]  # (only CR and LF break a header line)
+FILENAMES = ["fn.txt", "", "a;b.txt", "файл.bin", "sp ace.tar.gz", "x=y", "semi;colon", "jan;feb;mar.csv", "a;b;c;d", "; filename=evil", "q%22.txt", "nl%0Ax%0D.bin", "p\u2029s.txt", "nel\x85.bin", "vt\x0b.txt"]
 CTYPES = ["application/octet-stream", "text/plain; charset=x", None, "image/png"]
 
 
